@@ -279,6 +279,8 @@ def summarise(prop, tier, R, results, bounded, wall, write=True, verbose=False):
                 cur["by"] = c["by"]
             if c["error"]:
                 cur["error"] = c["error"]
+            if c.get("skipped"):
+                cur["skipped"] = True
             can_by[key] = cur
     shape_samples = []
     for b in bounded:
@@ -317,7 +319,11 @@ def summarise(prop, tier, R, results, bounded, wall, write=True, verbose=False):
             b["failures"] = []
             b["shape_failures"] = real_fail
     surviving = []
+    can_skipped = []
     for key, c in sorted(can_by.items()):
+        if c.get("skipped") and not c["killed"]:
+            can_skipped.append("%s:%s" % (key[0], key[1]))
+            continue
         can_total += 1
         if c["killed"]:
             can_killed += 1
@@ -400,6 +406,8 @@ def summarise(prop, tier, R, results, bounded, wall, write=True, verbose=False):
         errors.append((oid, "z3 says unsat but cvc5 says sat on the same VC: solver disagreement, nothing is believed"))
     for lab, err in errors:
         out_lines.append("CHECKER-ERROR unit=%s %s" % (lab, err))
+    if can_skipped:
+        out_lines.append("NOTE canaries whose text pattern does not occur in this source (skipped): %s" % "; ".join(can_skipped))
     if surviving:
         out_lines.append("CHECKER-ERROR surviving canaries (weak contracts): %s" % "; ".join(surviving))
     if not results and not bounded:
@@ -430,7 +438,8 @@ def summarise(prop, tier, R, results, bounded, wall, write=True, verbose=False):
             "cvc5_cross_check": ({"vcs_z3_unsat_also_given_to_cvc5": sum(cross.values()), "cvc5_unsat": cross["unsat"],
                                   "cvc5_unknown_or_timeout": cross["unknown"], "cvc5_sat_DISAGREEMENT": cross_disagree}
                                  if tier == "thorough" else "thorough tier only"),
-            "canaries": {"killed": can_killed, "total": can_total, "surviving": surviving},
+            "canaries": {"killed": can_killed, "total": can_total, "surviving": surviving,
+                         "skipped_pattern_absent": can_skipped},
             "covers_sat": covers,
             "bounded": [{k: v for k, v in b.items() if k != "failures"} | {"failures": len(b.get("failures", []))}
                         for b in bounded],
